@@ -113,7 +113,7 @@ CLAIMED = {
               'ids with total >= n, emptied other-axis vectors dropped, same '
               'seed same table, input untouched) plus outcome frequencies over '
               '400 (thorough 4000) seeds against exact hypergeometric / '
-              'multinomial / uniform-subset laws at 6 sigma.' + _SAMPLING,
+              'multinomial / uniform-subset laws (exact binomial tail < 1e-12 per outcome).' + _SAMPLING,
               _WORLD_NOTE + '; a change only in _subsample.pyx is invisible',
               'per-call invariants + seed-swept distribution test'),
     'C13': _c('transform with instrumented element-wise / vector-wise / '
